@@ -288,6 +288,19 @@ func (m *vCfgMap) Insert(ctx context.Context, key configapi.ConfigurationID, val
 	return e, nil
 }
 
+// Put: the unconditional write of the atomix map (create or overwrite)
+func (m *vCfgMap) Put(ctx context.Context, key configapi.ConfigurationID, value *configapi.Configuration, opts ..._map.PutOption) (*vCfgEntry, error) {
+	if key != VConfigID {
+		return nil, atomixerrors.NewInvalid("unknown key")
+	}
+	VConfig = vCloneCfg(value)
+	VConfigVer++
+	e := &vCfgEntry{Key: key}
+	e.Value = value
+	e.Version = primitive.Version(VConfigVer)
+	return e, nil
+}
+
 func (m *vCfgMap) Update(ctx context.Context, key configapi.ConfigurationID, value *configapi.Configuration, opts ..._map.UpdateOption) (*vCfgEntry, error) {
 	if key != VConfigID || VConfig == nil {
 		return nil, atomixerrors.NewNotFound("configuration not found")
@@ -364,4 +377,10 @@ func VerifC15Configuration() {
 	verifrt.Assert(e1 == nil && a.Version > v0, "first-writer-succeeds-and-the-version-grows")
 	verifrt.Assert(e2 != nil, "second-writer-of-the-same-version-is-refused")
 	verifrt.Assert(VConfig != nil && VConfig.Status.Committed.Index == a.Status.Committed.Index && VConfigVer == v0+1, "the-lost-update-left-no-trace-in-the-record")
+	// a late Create of an existing record (a writer that read "not found" before the other one created it) is refused and
+	// leaves the record, its version and its indexes alone
+	late := &configapi.Configuration{ID: VConfigID, TargetID: "t1"}
+	ec := s.Create(ctx, late)
+	verifrt.Assert(ec != nil, "create-of-an-existing-record-is-refused")
+	verifrt.Assert(VConfig != nil && VConfig.Status.Committed.Index == a.Status.Committed.Index && VConfigVer == v0+1, "refused-create-leaves-the-record-alone")
 }
